@@ -2,23 +2,64 @@
 From C05 Require Import Model Spec Corr Proofs ProofsRound ProofsBits ProofsCmp ProofsDiv ProofsGcd ProofsArith ProofsExt.
 Open Scope Z_scope.
 
+(* ---------- isqrt ---------- *)
+Lemma isqrt_exact args : in_domain OIsqrt args = true -> s_out OIsqrt args = Some (m_op OIsqrt args).
+Proof.
+  cbn [in_domain]. destruct args as [|[a|a| |] [|? ?]]; try discriminate; intros Hd;
+    unfold s_out; cbn [denotes denote m_op m_isqrt s_op fst snd]; f_equal; f_equal.
+  - destruct (Z.ltb_spec a 0) as [Hn|Hp]; [reflexivity|].
+    assert (I : in64 (Z.sqrt a) = true).
+    { apply in64_spec in Hd. apply in64_spec. pose proof (Z.sqrt_nonneg a). pose proof (Z.sqrt_le_lin a Hp).
+      unfold two63 in *. lia. }
+    unfold canon_int. rewrite I. reflexivity.
+  - destruct (Z.ltb_spec a 0) as [Hn|Hp]; [reflexivity|]. cbn [orb] in Hd.
+    unfold canon_int. apply negb_true_iff in Hd. rewrite Hd. reflexivity.
+Qed.
+Lemma isqrt_value_exact args :
+  value_domain OIsqrt args = true ->
+  exists so, s_out OIsqrt args = Some so /\
+    res_same_value (o_res so) (o_res (m_op OIsqrt args)) = true /\ o_args (m_op OIsqrt args) = args.
+Proof.
+  cbn [value_domain]. destruct args as [|[a|a| |] [|? ?]]; try discriminate; intros Hd. apply Z.leb_le in Hd.
+  eexists. split; [reflexivity|]. cbn [denotes denote m_op m_isqrt s_op fst snd o_res o_args].
+  destruct (Z.ltb_spec a 0) as [Hn|_]; [lia|]. split; [|reflexivity].
+  cbn [res_same_value]. unfold val_same_value, canon_int.
+  destruct (in64 (Z.sqrt a)); cbn [denote]; apply Z.eqb_refl.
+Qed.
+(* what S demands of isqrt is the integer square root: the largest r with r*r <= n *)
+Lemma isqrt_spec_root n :
+  0 <= n -> exists r, s_op OIsqrt [(n, 1)] = RVal (canon_int r) /\ 0 <= r /\ r * r <= n < (r + 1) * (r + 1).
+Proof.
+  intros Hn. exists (Z.sqrt n). cbn [s_op]. destruct (Z.ltb_spec n 0); [lia|].
+  split; [reflexivity|]. split; [apply Z.sqrt_nonneg|]. pose proof (Z.sqrt_spec n Hn). unfold Z.succ in *. lia.
+Qed.
+Lemma isqrt_examples :
+  in_domain OIsqrt [VFix 21] = true /\ in_domain OIsqrt [VFix (-9)] = true /\
+  in_domain OIsqrt [VFix 4611686018427387903] = true /\ in_domain OIsqrt [VBig (-100000000000000000000)] = true /\
+  m_op OIsqrt [VFix 4611686018427387903] = {| o_res := RVal (VFix 2147483647); o_args := [VFix 4611686018427387903] |} /\
+  in_domain OIsqrt [VBig 100000000000000000000] = false /\ value_domain OIsqrt [VBig 100000000000000000000] = true /\
+  in_domain OIsqrt [VBig 1361129467683753853853498429727072845824] = true /\
+  m_op OIsqrt [VBig 100000000000000000000] = {| o_res := RVal (VBig 10000000000); o_args := [VBig 100000000000000000000] |} /\
+  m_op OIsqrt [VBig 5] = {| o_res := RVal (VBig 2); o_args := [VBig 5] |}.
+Proof. repeat split; vm_compute; reflexivity. Qed.
+
 (* inside the guard: exact result, canonical representation, operands untouched *)
 Theorem exact_on_domain o args :
   in_domain o args = true -> s_out o args = Some (m_op o args).
 Proof.
-  intros Hd. destruct o as [ | | | |m| | | | | | | |c|b| |mx].
+  intros Hd. destruct o as [ | | | |m| | | | | | | |c|b| |mx| ].
   - apply add_exact, Hd. - apply sub_exact, Hd. - apply mul_exact, Hd. - apply div_exact, Hd.
   - destruct m; [apply floor_exact|apply ceiling_exact|apply truncate_exact|apply round_exact]; exact Hd.
   - apply mod_exact, Hd. - apply rem_exact, Hd. - apply abs_exact, Hd. - apply inc_exact, Hd. - apply dec_exact, Hd.
   - apply gcd_exact, Hd. - apply lcm_exact, Hd.
   - destruct c; [apply cmp_exact|apply cmp_exact|apply cmp_exact|apply cmp_exact|apply eq_exact]; try discriminate; exact Hd.
-  - apply bit_exact, Hd. - apply lognot_exact, Hd. - apply ext_exact, Hd.
+  - apply bit_exact, Hd. - apply lognot_exact, Hd. - apply ext_exact, Hd. - apply isqrt_exact, Hd.
 Qed.
 
 (* no operation alters an operand, whatever the operands are *)
 Theorem operands_untouched o args : o_args (m_op o args) = args.
 Proof.
-  destruct o as [ | | | |m| | | | | | | |c|b| |mx]; cbn [m_op]; try reflexivity.
+  destruct o as [ | | | |m| | | | | | | |c|b| |mx| ]; cbn [m_op]; try reflexivity.
   - unfold m_sub. destruct args as [|a [|? ?]]; reflexivity.
   - unfold m_div. destruct args as [|a [|? ?]]; try reflexivity.
     destruct a as [[|[?|?|]|?]|z|n d|]; try reflexivity.
@@ -33,6 +74,7 @@ Proof.
   - unfold m_inc. destruct args as [|[?|?|? ?|] [|? ?]]; reflexivity.
   - unfold m_inc. destruct args as [|[?|?|? ?|] [|? ?]]; reflexivity.
   - unfold m_lognot. destruct args as [|[?|?|? ?|] [|? ?]]; reflexivity.
+  - unfold m_isqrt. destruct args as [|[?|?|? ?|] [|? ?]]; reflexivity.
 Qed.
 
 (* on the value domain: exact values whatever the representation *)
@@ -42,11 +84,12 @@ Theorem value_exact o args :
     res_same_value (o_res so) (o_res (m_op o args)) = true /\
     o_args (m_op o args) = args.
 Proof.
-  intros Hd. destruct o as [ | | | |m| | | | | | | |c|b| |mx]; try discriminate Hd; cbn [value_domain] in Hd.
+  intros Hd. destruct o as [ | | | |m| | | | | | | |c|b| |mx| ]; try discriminate Hd; cbn [value_domain] in Hd.
   - destruct (round_value_exact m args Hd) as (so & H1 & H2 & H3). exists so. auto.
   - destruct (modrem_value_exact OMod args (or_introl eq_refl) Hd) as (so & H1 & H2 & H3). exists so. auto.
   - destruct (modrem_value_exact ORem args (or_intror eq_refl) Hd) as (so & H1 & H2 & H3). exists so. auto.
   - destruct (bit_value_exact b args Hd) as (so & H1 & H2 & H3). exists so. auto.
+  - destruct (isqrt_value_exact args Hd) as (so & H1 & H2 & H3). exists so. auto.
 Qed.
 
 (* both domains are inhabited by the interesting cases *)
